@@ -15,79 +15,79 @@ Proof. induction n as [|n IH]; intros s; [destruct s; reflexivity|]. destruct s 
 Lemma sdrop_length n : forall s, String.length (sdrop n s) = String.length s - n.
 Proof. induction n as [|n IH]; intros s; [destruct s; cbn; lia|]. destruct s as [|c r]; [reflexivity|]. cbn. apply IH. Qed.
 
-Lemma best_rule_pos fuel rules s name skip n : best_rule fuel rules s = Some (name, skip, n) -> 0 < n.
+Lemma best_rule_pos rules s name skip n : best_rule rules s = Some (name, skip, n) -> 0 < n.
 Proof.
   revert name skip n. induction rules as [|[nm r] rest IH]; intros name skip n H; [discriminate|].
-  cbn [best_rule] in H. destruct (best_rule fuel rest s) as [[[nm' sk'] n']|] eqn:E.
+  cbn [best_rule] in H. destruct (best_rule rest s) as [[[nm' sk'] n']|] eqn:E.
   - specialize (IH nm' sk' n' eq_refl).
-    destruct (Nat.ltb (rule_len fuel r s) n') eqn:El; [injection H as <- <- <-; exact IH|].
-    destruct (Nat.eqb (rule_len fuel r s) 0) eqn:Ez; [injection H as <- <- <-; exact IH|].
+    destruct (Nat.ltb (rule_len r s) n') eqn:El; [injection H as <- <- <-; exact IH|].
+    destruct (Nat.eqb (rule_len r s) 0) eqn:Ez; [injection H as <- <- <-; exact IH|].
     injection H as <- <- <-. apply Nat.eqb_neq in Ez. lia.
-  - destruct (Nat.eqb (rule_len fuel r s) 0) eqn:Ez; [discriminate|]. injection H as <- <- <-. apply Nat.eqb_neq in Ez. lia.
+  - destruct (Nat.eqb (rule_len r s) 0) eqn:Ez; [discriminate|]. injection H as <- <- <-. apply Nat.eqb_neq in Ez. lia.
 Qed.
 
 Fixpoint concat_lexemes (ls : list lexeme) : string := match ls with [] => "" | x :: r => (lexeme_text x ++ concat_lexemes r)%string end.
 
 (* nothing lost, nothing invented *)
-Theorem lex_partition rules mf : forall steps s line col ls, lex_from steps mf rules s line col = Some ls -> concat_lexemes ls = s.
+Theorem lex_partition rules : forall steps s line col ls, lex_from steps rules s line col = Some ls -> concat_lexemes ls = s.
 Proof.
   induction steps as [|k IH]; intros s line col ls H.
   - destruct s; [injection H as <-; reflexivity | discriminate].
   - destruct s as [|c rest]; [injection H as <-; reflexivity|]. cbn [lex_from] in H.
-    destruct (best_rule mf rules (String c rest)) as [[[name skip] n]|] eqn:Eb.
+    destruct (best_rule rules (String c rest)) as [[[name skip] n]|] eqn:Eb.
     + destruct (advance (stake n (String c rest)) line col) as [l2 c2].
-      destruct (lex_from k mf rules (sdrop n (String c rest)) l2 c2) as [r|] eqn:Er; [|discriminate].
+      destruct (lex_from k rules (sdrop n (String c rest)) l2 c2) as [r|] eqn:Er; [|discriminate].
       injection H as <-. cbn [concat_lexemes]. rewrite (IH _ _ _ _ Er).
       destruct skip; cbn [lexeme_text tk_text]; apply stake_sdrop.
     + destruct (advance (String c "") line col) as [l2 c2].
-      destruct (lex_from k mf rules rest l2 c2) as [r|] eqn:Er; [|discriminate].
+      destruct (lex_from k rules rest l2 c2) as [r|] eqn:Er; [|discriminate].
       injection H as <-. cbn [concat_lexemes lexeme_text]. now rewrite (IH _ _ _ _ Er).
 Qed.
 
 (* termination: |input| steps are always enough *)
-Theorem lex_total rules mf : forall steps s line col, String.length s <= steps -> lex_from steps mf rules s line col <> None.
+Theorem lex_total rules : forall steps s line col, String.length s <= steps -> lex_from steps rules s line col <> None.
 Proof.
   induction steps as [|k IH]; intros s line col Hl.
   - destruct s; [discriminate | cbn in Hl; lia].
   - destruct s as [|c rest]; [discriminate|]. cbn [lex_from].
-    destruct (best_rule mf rules (String c rest)) as [[[name skip] n]|] eqn:Eb.
-    + pose proof (best_rule_pos _ _ _ _ _ _ Eb) as Hn.
+    destruct (best_rule rules (String c rest)) as [[[name skip] n]|] eqn:Eb.
+    + pose proof (best_rule_pos _ _ _ _ _ Eb) as Hn.
       destruct (advance (stake n (String c rest)) line col) as [l2 c2].
       assert (Hs : String.length (sdrop n (String c rest)) <= k) by (rewrite sdrop_length; change (String.length (String c rest)) with (S (String.length rest)) in *; lia).
       specialize (IH (sdrop n (String c rest)) l2 c2 Hs).
-      destruct (lex_from k mf rules (sdrop n (String c rest)) l2 c2); [discriminate | contradiction].
+      destruct (lex_from k rules (sdrop n (String c rest)) l2 c2); [discriminate | contradiction].
     + destruct (advance (String c "") line col) as [l2 c2].
       assert (Hs : String.length rest <= k) by (change (String.length (String c rest)) with (S (String.length rest)) in Hl; lia).
-      specialize (IH rest l2 c2 Hs). destruct (lex_from k mf rules rest l2 c2); [discriminate | contradiction].
+      specialize (IH rest l2 c2 Hs). destruct (lex_from k rules rest l2 c2); [discriminate | contradiction].
 Qed.
 
 Corollary lex_all_total rules s : exists ls, lex_all rules s = Some ls /\ concat_lexemes ls = s.
 Proof.
-  unfold lex_all. destruct (lex_from (String.length s) (2 * String.length s + 8) rules s 1 0) as [ls|] eqn:E.
-  - exists ls. split; [reflexivity | exact (lex_partition _ _ _ _ _ _ _ E)].
-  - exfalso. exact (lex_total rules _ _ s 1 0 (le_n _) E).
+  unfold lex_all. destruct (lex_from (String.length s) rules s 1 0) as [ls|] eqn:E.
+  - exists ls. split; [reflexivity | exact (lex_partition _ _ _ _ _ _ E)].
+  - exfalso. exact (lex_total rules _ s 1 0 (le_n _) E).
 Qed.
 
 (* positions: reading the text in front of a token from the start position of the scan leads to the token's recorded line/column *)
 Lemma advance_app a : forall b line col, advance (a ++ b) line col = let '(l, c) := advance a line col in advance b l c.
 Proof. induction a as [|x a IH]; intros b line col; [reflexivity|]. cbn [append advance]. destruct (Ascii.eqb x nl); apply IH. Qed.
 
-Theorem lex_positions rules mf : forall steps s line col ls, lex_from steps mf rules s line col = Some ls ->
+Theorem lex_positions rules : forall steps s line col ls, lex_from steps rules s line col = Some ls ->
   forall pre t post, ls = pre ++ LexTok t :: post -> (tk_line t, tk_col t) = advance (concat_lexemes pre) line col.
 Proof.
   induction steps as [|k IH]; intros s line col ls H pre t post Hls.
   - destruct s; [injection H as <-; destruct pre; discriminate | discriminate].
   - destruct s as [|c rest]; [injection H as <-; destruct pre; discriminate|]. cbn [lex_from] in H.
-    destruct (best_rule mf rules (String c rest)) as [[[name skip] n]|] eqn:Eb.
+    destruct (best_rule rules (String c rest)) as [[[name skip] n]|] eqn:Eb.
     + destruct (advance (stake n (String c rest)) line col) as [l2 c2] eqn:Ea.
-      destruct (lex_from k mf rules (sdrop n (String c rest)) l2 c2) as [r|] eqn:Er; [|discriminate].
+      destruct (lex_from k rules (sdrop n (String c rest)) l2 c2) as [r|] eqn:Er; [|discriminate].
       injection H as <-. destruct pre as [|x pre'].
       * cbn in Hls. destruct skip; [discriminate|]. injection Hls as <- _. reflexivity.
       * cbn [app] in Hls. injection Hls as Hx Hr. cbn [concat_lexemes]. rewrite advance_app.
         replace (lexeme_text x) with (stake n (String c rest)) by (subst x; destruct skip; reflexivity).
         rewrite Ea. exact (IH _ _ _ _ Er pre' t post Hr).
     + destruct (advance (String c "") line col) as [l2 c2] eqn:Ea.
-      destruct (lex_from k mf rules rest l2 c2) as [r|] eqn:Er; [|discriminate].
+      destruct (lex_from k rules rest l2 c2) as [r|] eqn:Er; [|discriminate].
       injection H as <-. destruct pre as [|x pre']; [discriminate|].
       cbn [app] in Hls. injection Hls as Hx Hr. cbn [concat_lexemes]. rewrite advance_app. subst x. cbn [lexeme_text]. rewrite Ea.
       exact (IH _ _ _ _ Er pre' t post Hr).
